@@ -1,5 +1,8 @@
 import J5V.Props.C19
-#print axioms J5V.Props.C19.C19_no_panic_partial
-#print axioms J5V.Props.C19.C19_wellformed_partial
+#print axioms J5V.Props.C19.C19_frag_ranges_wf
+#print axioms J5V.Props.C19.C19_never_panics
+#print axioms J5V.Props.C19.C19_no_panic
+#print axioms J5V.Props.C19.C19_wellformed
 #print axioms J5V.Props.C19.C19_fmtDiffs_wellformed
-#print axioms J5V.Props.C19.fragRangesOK_sound
+#print axioms J5V.Props.C19.C19_src_fmtDiffs_conds
+#print axioms J5V.Props.C19.C19_src_rangeLines
